@@ -83,6 +83,10 @@ func (e *Engine) classify(t types.Type) (kind, Sort) {
 	case *types.Slice:
 		return kSlice, ""
 	case *types.Struct:
+		if isAtomicValue(t) {
+			// sync/atomic.Value: a cell holding an interface value (sequential semantics, see syncmodel.go)
+			return kScalar, SAny
+		}
 		if e.isOpaqueStruct(t) {
 			return kScalar, SInt
 		}
@@ -97,6 +101,11 @@ func (e *Engine) classify(t types.Type) (kind, Sort) {
 		return kOpaque, ""
 	}
 	return kScalar, SInt
+}
+
+func isAtomicValue(t types.Type) bool {
+	n, ok := t.(*types.Named)
+	return ok && n.Obj().Pkg() != nil && n.Obj().Pkg().Path() == "sync/atomic" && n.Obj().Name() == "Value"
 }
 
 // isOpaqueStruct: struct types declared outside the package are opaque handles (their fields are never accessed here).
